@@ -133,6 +133,14 @@ CLAIMED = {
              "alloc, dealloc) follow their benchmark and appear iff non-zero, ignored leaves are marked and not run; no NaN; actions bench, test, list.",
         note="Cells matched by order between separators, not by screen column; sortedness itself is C16's verdict.",
         ref="6 (C20)"),
+    "C12": dict(
+        technique="runtime monitoring of generated programs: registry dump, listing and invocation log of randomly generated crates (through the attribute macros and the linker) vs. what the generator wrote; repeated under other codegen settings",
+        text="For every generated crate the registry (BENCH_ENTRIES / GROUP_ENTRIES dump: display name, raw name, module path, file / line / column of the attribute, every "
+             "option as written, instantiation shape), the terse case list, the printed tree and the invocation log under --test equal, both ways, what the generator wrote: "
+             "nothing missing, nothing extra, each case invoked exactly once with the argument / type / const it names; empty types/consts/args register nothing; same "
+             "result with codegen-units=1 -O3 (and 16 -O0 in thorough).",
+        note="Programs are sampled, not enumerated; constructor order is only varied through codegen settings. The macro-path slices of C13/C15/C16/C17 reuse the same crates.",
+        ref="6 (C12)"),
 }
 
 NOT_YET = {}
